@@ -5,12 +5,17 @@
    (main + Mininec.register_load) over the pulse layout of the objects.  Tie:
    correspondence stage `cmd` (the written attachment options of every lumped
    load of generated command lines, and the pulses of the re-read loads).
-   PARTIAL: objects / tags / tapers / transformations / sources / media / load
-   parameters are compared on the real code by the search oracle (write, read
-   back, write again; same description; same feed impedance), not modelled. *)
+   Second proved part: objects and tags.  Model/Objects.v is the reader (all
+   arcs, then all helices, then all wires; explicit tags positive and distinct;
+   automatic tags max+1, max+2, ... in that reading order; sorted by tag) and
+   the writer (model order, the tag only when it was given).
+   PARTIAL: tapers / transformations / sources / media / load parameters are
+   compared on the real code by the search oracle (write, read back, write
+   again; same description; same feed impedance), not modelled. *)
 From Coq Require Import ZArith List Bool Arith Permutation.
-From PM Require Import Model.Options Proofs.OptionsP.
+From PM Require Import Model.Options Proofs.OptionsP Model.Objects Proofs.ObjectsP.
 Import ListNotations.
+Open Scope nat_scope.
 
 (* for EVERY list of attached pulses (any order, any multiplicity) and both addressing forms, the written
    options are accepted and put the load on the same pulses with the same multiplicities *)
@@ -33,3 +38,22 @@ Theorem C15_counting_is_not_enough :
   full_counted [2] [0; 0] 0 = true /\ full [2] [0; 0] 0 = false.
 Proof. exact counted_writer_refuted. Qed.
 Print Assumptions C15_counting_is_not_enough.
+
+(* every model the reader can produce from object options (any mix of arcs, helices, wires with explicit
+   non-consecutive or automatic tags) is reproduced by reading the written options: same objects, same tags,
+   same "tag was given" flags, same order; hence writing again gives the same options *)
+Theorem C15_objects_round_trip :
+  forall (ls : list oline) (gs : list gobj), read_objs ls = Some gs -> read_objs (write_objs gs) = Some gs.
+Proof. exact objects_round_trip. Qed.
+Print Assumptions C15_objects_round_trip.
+
+Theorem C15_objects_fixpoint :
+  forall (ls : list oline) (gs : list gobj), read_objs ls = Some gs ->
+    option_map write_objs (read_objs (write_objs gs)) = Some (write_objs gs).
+Proof. intros ls gs H. rewrite (objects_round_trip ls gs H). reflexivity. Qed.
+Print Assumptions C15_objects_fixpoint.
+
+Example C15_objects_example :
+  read_objs [mkLine KWire None 1; mkLine KWire (Some 5) 2; mkLine KArc None 3; mkLine KHelix (Some 2) 4; mkLine KWire None 5]%Z
+  = Some [mkObj KHelix 2 true 4; mkObj KWire 5 true 2; mkObj KArc 6 false 3; mkObj KWire 7 false 1; mkObj KWire 8 false 5]%Z.
+Proof. vm_compute. reflexivity. Qed.
